@@ -31,22 +31,15 @@ func (t *TargetHasher) SetTargetChangeHash(target *model.Target) error {
 		return nil
 	}
 
-	// Collect the OutputHash values of all dependencies
-	dependencies := t.graph.GetDependencies(target)
-	dependencyHashes := make([]string, len(target.Dependencies))
-	for index, dependency := range dependencies {
-		targetDependency, ok := dependency.(*model.Target)
-		if !ok {
-			// Only consider dependencies that are targets
-			continue
-		}
-
-		outputHash := targetDependency.OutputHash
-		if outputHash == "" {
+	// Collect the OutputHash values of all dependencies, including the targets behind aliases
+	dependencies := t.graph.GetTargetDependencies(target)
+	dependencyHashes := make([]string, 0, len(dependencies))
+	for _, targetDependency := range dependencies {
+		if targetDependency.OutputHash == "" {
 			return fmt.Errorf("dependency %s of %s has no output hash", targetDependency.Label, target.Label)
 		}
 
-		dependencyHashes[index] = targetDependency.OutputHash
+		dependencyHashes = append(dependencyHashes, targetDependency.OutputHash)
 	}
 
 	changeHash, err := GetTargetChangeHash(*target, dependencyHashes)
